@@ -17,7 +17,10 @@ Package md extracts code sections of markdown files
 */
 package md
 
-import "os"
+import (
+	"os"
+	"unicode/utf8"
+)
 
 /*
 GetSource returns code sections enclosed in triple backticks.
@@ -27,9 +30,39 @@ func GetSource(mdfile string) (string, error) {
 	if err != nil {
 		return "", err
 	}
-	input := []rune(string(inbuf))
+	input, raw := decode(inbuf)
 	loadMd(input)
-	return string(input), nil
+	return string(encode(input, raw)), nil
+}
+
+// decode returns the characters of the file. A byte that is not part of a UTF-8
+// encoding becomes utf8.RuneError and is remembered under its index, so that
+// encode can put it back: the scanner must see it in a code section as it would
+// in a plain grammar file.
+func decode(inbuf []byte) (input []rune, raw map[int]byte) {
+	input = make([]rune, 0, len(inbuf))
+	raw = make(map[int]byte)
+	for i, r := range string(inbuf) {
+		if r == utf8.RuneError {
+			if _, w := utf8.DecodeRune(inbuf[i:]); w == 1 {
+				raw[len(input)] = inbuf[i]
+			}
+		}
+		input = append(input, r)
+	}
+	return
+}
+
+func encode(input []rune, raw map[int]byte) []byte {
+	out := make([]byte, 0, len(input))
+	for k, r := range input {
+		if b, isRaw := raw[k]; isRaw && r == utf8.RuneError {
+			out = append(out, b)
+		} else {
+			out = utf8.AppendRune(out, r)
+		}
+	}
+	return out
 }
 
 func loadMd(input []rune) {
